@@ -31,6 +31,7 @@ func runC07(r *Run, p *Prog) {
 	}
 	root := generatorRoot(p)
 	w, end, why2 := RunGenWalker(p, m, root)
+	curWalker = w
 	stmtTextOf = nil
 	if w != nil {
 		stmtTextOf = func(st ast.Stmt) (string, bool) {
@@ -217,7 +218,7 @@ func runC07(r *Run, p *Prog) {
 // kindPredicate: fd is `func(t *idl.Type) bool { switch t.Kind { case K1, K2: return true }; return false }`; returns
 // the kinds for which it answers true.
 func kindPredicate(info *types.Info, fd *ast.FuncDecl) ([]string, bool) {
-	if fd == nil || fd.Body == nil || fd.Type.Params == nil || len(fd.Type.Params.List) != 1 || len(fd.Body.List) != 2 {
+	if fd == nil || fd.Body == nil || fd.Type.Params == nil || len(fd.Type.Params.List) != 1 || len(fd.Body.List) == 0 || len(fd.Body.List) > 2 {
 		return nil, false
 	}
 	sw, ok := fd.Body.List[0].(*ast.SwitchStmt)
@@ -236,24 +237,99 @@ func kindPredicate(info *types.Info, fd *ast.FuncDecl) ([]string, bool) {
 		id, ok := r.Results[0].(*ast.Ident)
 		return ok && id.Name == want
 	}
-	if !isRet(fd.Body.List[1], "false") {
-		return nil, false
-	}
+	hasDefaultFalse := false
 	var kinds []string
 	for _, c := range sw.Body.List {
 		cc := c.(*ast.CaseClause)
-		if cc.List == nil || len(cc.Body) != 1 || !isRet(cc.Body[0], "true") {
+		if cc.List == nil {
+			// `default: return false` instead of a trailing `return false`
+			if len(cc.Body) != 1 || !isRet(cc.Body[0], "false") {
+				return nil, false
+			}
+			hasDefaultFalse = true
+			continue
+		}
+		if len(cc.Body) != 1 || !isRet(cc.Body[0], "true") {
 			return nil, false
 		}
 		kinds = append(kinds, kindsOfCase(info, cc)...)
+	}
+	if len(fd.Body.List) == 2 {
+		if !isRet(fd.Body.List[1], "false") {
+			return nil, false
+		}
+	} else if !hasDefaultFalse {
+		return nil, false
 	}
 	sort.Strings(kinds)
 	return kinds, len(kinds) > 0
 }
 
+// twArm: one way the type writer renders a set of kinds: an arm of its kind switch, or an
+// `if v, ok := <constant table>[t.Kind]; ok { ... }` statement (vals then holds the table's value per kind).
+type twArm struct {
+	kinds []string
+	vals  []string
+	body  []ast.Stmt
+	pos   token.Pos
+}
+
+func typeWriterArms(w *genWalker, tw *ast.FuncDecl, sw *ast.SwitchStmt) []twArm {
+	info := w.info
+	var arms []twArm
+	for _, st := range tw.Body.List {
+		ifs, ok := st.(*ast.IfStmt)
+		if !ok || ifs.Init == nil {
+			continue
+		}
+		as, ok := ifs.Init.(*ast.AssignStmt)
+		if !ok || len(as.Lhs) != 2 || len(as.Rhs) != 1 {
+			continue
+		}
+		ix, ok := as.Rhs[0].(*ast.IndexExpr)
+		if !ok {
+			continue
+		}
+		if se, ok := ix.Index.(*ast.SelectorExpr); !ok || se.Sel.Name != "Kind" {
+			continue
+		}
+		okId, isId := as.Lhs[1].(*ast.Ident)
+		cond, isCond := ifs.Cond.(*ast.Ident)
+		if !isId || !isCond || info.Uses[cond] != info.Defs[okId] {
+			continue
+		}
+		vals, keys, ok := w.constTable(ix.X)
+		if !ok {
+			continue
+		}
+		arm := twArm{body: ifs.Body.List, pos: ifs.Pos()}
+		for i, k := range keys {
+			if k == nil {
+				continue
+			}
+			arm.kinds = append(arm.kinds, kindsOfExprs(info, []ast.Expr{k})...)
+			arm.vals = append(arm.vals, vals[i])
+		}
+		arms = append(arms, arm)
+	}
+	if sw != nil {
+		for _, c := range sw.Body.List {
+			cc := c.(*ast.CaseClause)
+			arms = append(arms, twArm{kinds: kindsOfCase(info, cc), body: cc.Body, pos: cc.Pos()})
+		}
+	}
+	return arms
+}
+
 func kindsOfCase(info *types.Info, cc *ast.CaseClause) []string {
+	out := kindsOfExprs(info, cc.List)
+	sort.Strings(out)
+	return out
+}
+
+func kindsOfExprs(info *types.Info, list []ast.Expr) []string {
 	var out []string
-	for _, e := range cc.List {
+	for _, e := range list {
 		if se, ok := e.(*ast.SelectorExpr); ok {
 			out = append(out, se.Sel.Name)
 		} else if id, ok := e.(*ast.Ident); ok {
@@ -262,7 +338,6 @@ func kindsOfCase(info *types.Info, cc *ast.CaseClause) []string {
 			out = append(out, tv.Value.String())
 		}
 	}
-	sort.Strings(out)
 	return out
 }
 
@@ -400,16 +475,15 @@ func conversionRules(r *Run, p *Prog, w *genWalker) {
 	}
 	// kinds whose emitted text depends on the flag
 	dep := map[string]bool{}
-	for _, c := range sw.Body.List {
-		cc := c.(*ast.CaseClause)
+	for _, arm := range typeWriterArms(w, tw, sw) {
 		uses := false
-		for _, s := range cc.Body {
+		for _, s := range arm.body {
 			if usesIdent(info, s, flag) {
 				uses = true
 			}
 		}
 		if uses {
-			for _, k := range kindsOfCase(info, cc) {
+			for _, k := range arm.kinds {
 				dep[k] = true
 			}
 		}
@@ -580,10 +654,39 @@ func writeArg(st ast.Stmt) ast.Expr {
 		return nil
 	}
 	call, ok := es.X.(*ast.CallExpr)
-	if !ok || !isBufWrite(call) {
+	if !ok {
 		return nil
 	}
-	return call.Args[0]
+	if isBufWrite(call) {
+		return call.Args[0]
+	}
+	// an emit helper of the generator that writes its (variadic) string arguments in order
+	if w := curWalker; w != nil && !call.Ellipsis.IsValid() {
+		var fd *ast.FuncDecl
+		switch f := call.Fun.(type) {
+		case *ast.Ident:
+			fd = w.funcs[f.Name]
+		case *ast.SelectorExpr:
+			fd = w.methodDecl(f)
+		}
+		if fd != nil && variadicEmitter(w.info, fd) {
+			return concatArgs(call.Args[len(call.Args)-variadicCount(fd, call):])
+		}
+	}
+	return nil
+}
+
+// curWalker: the walker of the current run (for helpers that take statements apart).
+var curWalker *genWalker
+
+// firstWriteArg: what the first writing statement of list writes.
+func firstWriteArg(list []ast.Stmt) ast.Expr {
+	for _, st := range list {
+		if e := writeArg(st); e != nil {
+			return e
+		}
+	}
+	return nil
 }
 
 func constParts(info *types.Info, e ast.Expr) []string {
@@ -1201,7 +1304,7 @@ func nullableRules(r *Run, p *Prog, m *idlModel, root string) {
 				switch {
 				case hasFact(fs, "NE", vt, "nil") || hasFact(fs, "NE", strip(vt), "nil"):
 					ok2, how = true, "nil test"
-				case key == member{"Type", "ElementType"} && kindFact(fs, base, "TypeArray", "TypeMap", "TypeMaybe"):
+				case key == member{"Type", "ElementType"} && (kindFact(fs, base, "TypeArray", "TypeMap", "TypeMaybe") || tableKindFact(p, m, b, holder, "TypeArray", "TypeMap", "TypeMaybe")):
 					ok2, how = true, "kind is array/map/optional (the parser sets the element for exactly these kinds)"
 				case key == member{"TypeField", "Type"}:
 					// the field comes from a range over Y.Fields: Y.Kind == struct known, or Y is a method's in/out (domain), or Y is a normalised error type
@@ -1248,6 +1351,69 @@ func nullableRules(r *Run, p *Prog, m *idlModel, root string) {
 	if n == 0 {
 		r.Unresolved("G1", "dereferences of nullable tree members in the generator")
 	}
+}
+
+// tableKindFact: block b is dominated by the success edge of `_, ok := <constant table>[<node>.Kind]` for the node held
+// by holder, and every key of the table is one of the given kinds.
+func tableKindFact(p *Prog, m *idlModel, b *ssa.BasicBlock, holder ssa.Value, kinds ...string) bool {
+	allowed := map[int64]bool{}
+	for _, k := range kinds {
+		allowed[int64(m.kinds[k])] = true
+	}
+	for d := b; d != nil; d = d.Idom() {
+		id := d.Idom()
+		if id == nil || len(id.Instrs) == 0 || len(id.Succs) != 2 {
+			continue
+		}
+		iff, ok := id.Instrs[len(id.Instrs)-1].(*ssa.If)
+		if !ok || id.Succs[0] != d || len(d.Preds) != 1 {
+			continue
+		}
+		ex, ok := iff.Cond.(*ssa.Extract)
+		if !ok || ex.Index != 1 {
+			continue
+		}
+		lk, ok := ex.Tuple.(*ssa.Lookup)
+		if !ok || !lk.CommaOk {
+			continue
+		}
+		// the key is <holder>.Kind
+		kl, ok := lk.Index.(*ssa.UnOp)
+		if !ok {
+			continue
+		}
+		kfa, ok := kl.X.(*ssa.FieldAddr)
+		if !ok || fieldName(kfa.X, kfa.Field) != "Kind" || kfa.X != holder {
+			continue
+		}
+		// the table: a package-level map that is only initialised
+		ml, ok := lk.X.(*ssa.UnOp)
+		if !ok {
+			continue
+		}
+		g, ok := ml.X.(*ssa.Global)
+		if !ok {
+			continue
+		}
+		mm, ok := p.ConstGlobal(g).(*ssa.MakeMap)
+		if !ok {
+			continue
+		}
+		all, n := true, 0
+		for _, ref := range *mm.Referrers() {
+			if mu, ok := ref.(*ssa.MapUpdate); ok {
+				k, isK := mu.Key.(*ssa.Const)
+				if !isK || !allowed[k.Int64()] {
+					all = false
+				}
+				n++
+			}
+		}
+		if all && n > 0 {
+			return true
+		}
+	}
+	return false
 }
 
 // fieldsOwner: for a TypeField value obtained by indexing <owner>.Fields, the term of <owner>.
